@@ -291,6 +291,9 @@ def m_index(eng, call, args):
     if rb is not None:
         lo, hi = rb
         call["pre"] = ("range", lo, hi, n)
+        if any(x.endswith("index_mut") for x in call.get("norm_names", [])) and args[0].op == "ref":
+            # mutable sub-slice of a known location: writes through it are (weak) updates of that location
+            return mk("ref", args[0].args[0], args[0].args[1] + (("rng", lo, hi),))
         return mk("refv", mk_slice(eng, call, base, lo, hi))
     # single element
     call["pre"] = ("lt", args[1], n)
@@ -1330,3 +1333,43 @@ def m_entry_or(eng, call, args):
     eng.store(call["state"], loc, path + (("mapval", k),), slot)
     call["entry_or"] = (mp, k)
     return mk("ref", loc, path + (("mapval", k),))
+
+
+@pattern(r"^std::ops::(BitXor|BitOr|BitAnd|Shl|Shr|Not|Rem|Div)::\w+$")
+def m_int_bitop(eng, call, args):
+    """operator traits on primitive integers / references to them (e.g. `a ^ b` inside a closure over &u8)"""
+    names = " ".join(call.get("norm_names", []))
+    vals = [deref_value(eng, call["state"], a) if a.op in ("ref", "refv", "refo") else a for a in args]
+    op = re.search(r"std::ops::(\w+)::", names).group(1).lower()
+    if op in ("rem", "div"):
+        call["pre"] = ("nonzero", vals[1]) if len(vals) > 1 else None
+    return mk("intop_" + op, *vals)
+
+
+@model("std::vec::Vec::<T, A>::dedup", "std::vec::Vec::<T, A>::dedup_by", "std::vec::Vec::<T, A>::dedup_by_key",
+       "std::vec::Vec::<T, A>::retain", "std::vec::Vec::<T, A>::retain_mut", "std::vec::Vec::<T, A>::truncate",
+       "std::slice::<impl [T]>::sort", "std::slice::<impl [T]>::sort_by", "std::slice::<impl [T]>::sort_by_key",
+       "std::slice::<impl [T]>::sort_unstable", "std::slice::<impl [T]>::sort_unstable_by", "std::slice::<impl [T]>::reverse")
+def m_vec_subset(eng, call, args):
+    """in-place operations that keep a sub-multiset of the elements (possibly reordered): every element of the result
+    is an element of the old value and the length does not grow"""
+    old = val(eng, call, args[0])
+    meth = call["norm_names"][0].split("::")[-1]
+    extra = []
+    if len(args) > 1 and args[1].op == "agg" and args[1].args[0].startswith("closure:"):
+        e = mk("elem", old, call["site"])
+        n = 2 if meth == "dedup_by" else 1
+        r = eng.invoke_value(call, args[1], [mk("refv", e)] * n, tag="#" + meth)
+        if r is not None:
+            extra.append(r)
+    eng.assign_through(call, args[0], mk("subset", old, meth, *extra))
+    return mk("unit")
+
+
+@model("std::slice::<impl [T]>::chunks_exact", "std::slice::<impl [T]>::chunks")
+def m_chunks(eng, call, args):
+    v = val(eng, call, args[0])
+    call["pre"] = ("nonzero", args[1])
+    meth = call["norm_names"][0].split("::")[-1]
+    # every chunk yielded by chunks_exact has exactly n elements
+    return mk("iter", mk("chunks", v, args[1], meth), False, call["site"])
